@@ -27,6 +27,52 @@ NA = "ant_protocol::NetworkAddress"
 
 
 def run(R):
+    # what the network layer hands out as "the closest peers" is the sorted, size-checked list: an answer is produced only from a
+    # successful sort_peers_by_address (which refuses a list shorter than the close group), never from the raw look-up result
+    # storage challenge: the chunks expected from a peer are the closest to the *target* among ALL candidates — the list sorted by
+    # closeness to self is re-sorted by distance to the target without being cut down in between
+    sc = R.body("C11.challenge.whole", "ant_node::node::Node::storage_challenge::{closure#0}")
+    if sc is not None:
+        prep(sc)
+        g_ = cfg_of(sc)
+        sorts = [b for b in sc.blocks if b["term"]["k"] == "call" and not b["cleanup"] and (b["term"].get("ncallee") or "").endswith("::sort_by_key")]
+        okc = len(sorts) >= 2
+        if okc:
+            ta_ = Taint(sc, through="all")
+            vec = set()
+            for b in sorts:
+                r_ = op_local(b["term"]["args"][0])
+                vec |= backward(sc, r_)          # the slice handed to sort_by_key comes from `&mut vec` through DerefMut
+            refs = ta_.closure(vec)
+            first, last = sorts[0]["id"], sorts[-1]["id"]
+            between = g_.reach((first,)) & {b["id"] for b in sc.blocks if last in g_.reach((b["id"],))}
+            SHRINK = ("::truncate", "::retain", "::drain", "::split_off", "::pop", "::remove", "::clear", "::dedup", "::swap_remove")
+            cutters = [b for b in sc.blocks if b["id"] in between and b["term"]["k"] == "call" and not b["cleanup"] and (b["term"].get("ncallee") or "").startswith("alloc::vec::Vec::")
+                       and (b["term"].get("ncallee") or "").endswith(SHRINK) and op_local(b["term"]["args"][0]) in refs]
+            if cutters:
+                okc = False
+                R.viol("C11.challenge.whole", "candidates-cut:%s" % cutters[0]["term"]["ncallee"].split("::")[-1], "storage_challenge shortens the candidate list (%s) between sorting by closeness to self and re-sorting by distance to the target: the chunks nearest the target need not be among those nearest to self" % cutters[0]["term"]["ncallee"], sc, cutters[0]["term"]["l"])
+        else:
+            R.viol("C11.challenge.whole", "anchor-missing:two-sorts", "storage_challenge no longer sorts its candidates by closeness to self and then by distance to the target", sc, sc.lines[0])
+        R.inst("C11.challenge.whole", "K2 mutator whitelist", "the candidate list is not shortened between the two sorts of storage_challenge", len(sorts), okc)
+    gc = R.body("C11.closest.sorted", "ant_networking::Network::get_all_close_peers_in_range_or_close_group::{closure#0}")
+    if gc is not None:
+        R.gate("C11.closest.sorted", gc, RetSink("Ok", computed=True),
+               [[CallGuard(["ant_networking::sort_peers_by_address"], ("Ok",), "sort_peers_by_address is Ok")]],
+               descr="get_all_close_peers_in_range_or_close_group answers Ok only with the result of a successful sort_peers_by_address")
+        prep(gc)
+        sp_ = Taint(gc, through="all").closure(call_results(["ant_networking::sort_peers_by_address"])(gc))
+        oks_ = [st for b in gc.blocks if not b["cleanup"] for st in b["stmts"] if st["d"] == [0] and st["rv"]["k"] == "agg" and st["rv"].get("variant") == "Ok" and not st.get("norm")]
+        okv_ = bool(oks_) and all(op_local(st["rv"]["ops"][0]) in sp_ for st in oks_)
+        if not okv_:
+            R.viol("C11.closest.sorted", "unsorted-answer", "get_all_close_peers_in_range_or_close_group can answer with a list that is not the sorted result", gc, gc.lines[0])
+        R.inst("C11.closest.sorted.value", "K6 flows-to", "the list answered derives from sort_peers_by_address", len(oks_), okv_)
+    # the closeness comparisons of the fetcher's full-node bound and of the store's eviction are decided under C08 / C10; this
+    # property ("one distance metric, used consistently for every closeness decision") is answerable for them as well
+    import props.C08 as _C08
+    import props.C10 as _C10
+    R.import_rules("C08", _C08.run, ["C08.admit", "C08.shrink"], "C11.fetcher")
+    R.import_rules("C10", _C10.run, ["C10.prune", "C10.put.prune"], "C11.evict")
     F = R.F
     refpoint_rules(R)
     order_and_endian_rules(R)
